@@ -344,7 +344,7 @@ func RunDiamMsg(in, out string) error {
 			}
 			avps := append(dictAVPs(charging_dict.RateDictionary, "rate"), dictAVPs(charging_dict.AbmfDictionary, "abmf")...)
 			emit(map[string]any{"trace": v.ID, "seq": seq, "action": "tables", "tags": tags, "dictavps": avps,
-				"loaderr": fmt.Sprint(e1) + fmt.Sprint(e2) != "<nil><nil>"})
+				"loaderr": fmt.Sprint(e1)+fmt.Sprint(e2) != "<nil><nil>"})
 			continue
 		}
 		t := msgTypes[v.Msg]
